@@ -247,3 +247,53 @@ Proof.
 Qed.
 
 End BFS.
+
+(* ---- closed statements ---- *)
+Definition ord_perm (ord : nat -> list edge -> list edge) : Prop :=
+  forall k l e, In e (ord k l) <-> In e l.
+
+Definition no_goal_reachable (g : graph) (start : nat) : Prop :=
+  forall p u, walk g start p u -> g_goal g u = false.
+
+Theorem bfs_total g start ord :
+  wf_graph g -> (start < g_n g)%nat -> ord_perm ord ->
+  match bfs g start ord with
+  | Found path acts v _ => valid_bfs_plan g start (Some (path, acts)) /\ v = Z.of_nat (length acts)
+  | NoPlan _ => no_goal_reachable g start
+  | Broken | OutOfFuel => False
+  end.
+Proof.
+  intros Hwf Hs Ho. destruct (bfs_correct g start ord Hwf Hs Ho) as [H1 H2].
+  destruct (bfs g start ord); simpl in *; auto.
+Qed.
+
+(* sound + shortest: a returned path is a real path to a goal with the fewest possible steps *)
+Theorem bfs_sound_shortest g start ord path acts v vis :
+  wf_graph g -> (start < g_n g)%nat -> ord_perm ord ->
+  bfs g start ord = Found path acts v vis ->
+  exists p u, walk g start p u /\ g_goal g u = true /\ verts start p = path /\ map e_act p = acts /\
+              (forall p' u', walk g start p' u' -> g_goal g u' = true -> (length p <= length p')%nat).
+Proof.
+  intros Hwf Hs Ho E. pose proof (bfs_total g start ord Hwf Hs Ho) as H. rewrite E in H.
+  destruct H as [H _]. exact H.
+Qed.
+
+(* complete: "no plan" exactly when no goal is reachable (the fuel is part of the statement) *)
+Theorem bfs_complete g start ord :
+  wf_graph g -> (start < g_n g)%nat -> ord_perm ord ->
+  ((exists vis, bfs g start ord = NoPlan vis) <-> no_goal_reachable g start).
+Proof.
+  intros Hwf Hs Ho. pose proof (bfs_total g start ord Hwf Hs Ho) as H. split.
+  - intros [vis E]. rewrite E in H. exact H.
+  - intros Hn. destruct (bfs g start ord) as [| |vis|path acts v vis]; try contradiction.
+    + eauto.
+    + destruct H as [[p [u [W [G _]]]] _]. rewrite (Hn _ _ W) in G. discriminate.
+Qed.
+
+(* non-vacuity: the hypotheses hold on the example graph, and the loop does return the 2-step path there *)
+Example bfs_example :
+  wf_graph ex_graph /\ (0 < g_n ex_graph)%nat /\ ord_perm (fun _ l => l) /\
+  bfs ex_graph 0 (fun _ l => l) = Found [0; 2; 3]%nat [1; 0]%nat 2 [0; 1]%nat.
+Proof.
+  split; [apply wf_graphb_sound; reflexivity|]. split; [simpl; lia|]. split; [intros k l e; tauto | reflexivity].
+Qed.
